@@ -50,11 +50,14 @@ class C13Oracle(Oracle):
             return
         if (dgram.id, copy_index) not in getattr(self, "front_counted", ()):
             self.recv_from[dgram.src] = self.recv_from.get(dgram.src, 0) + len(dgram.data)
-        # the oracle's deliberately EARLY notion of validation: a Handshake-keyed packet or a
-        # PATH_RESPONSE arrived from that address (aioquic may validate later: merely stricter)
+        # the oracle's deliberately EARLY notion of validation: a Handshake-keyed packet arrived from the
+        # address the server sent its first flight to (it proves receipt of the server's Initial THERE; a
+        # copy of such a packet from any other address proves nothing about that address), or a
+        # PATH_RESPONSE arrived from the address (aioquic may validate later: merely stricter)
         for p in genuine_packets(dgram):
             if p.ptype == "handshake":
-                self.validated.add(dgram.src)
+                if getattr(self, "server_first_dst", None) in (None, dgram.src):
+                    self.validated.add(dgram.src)
             elif p.ptype == "1rtt":
                 for f in p.frames:
                     if f.type == wf.PATH_RESPONSE:
@@ -66,6 +69,9 @@ class C13Oracle(Oracle):
 
     def on_datagram_sent(self, ep, dgram):
         if not ep.is_client:
+            if getattr(self, "server_first_dst", None) is None and any(
+                    (not p.opaque) and p.ptype == "initial" for p in (dgram.meta or [])):
+                self.server_first_dst = dgram.dst  # where the server's Initial (ServerHello) went
             for p in genuine_packets(dgram):
                 for f in p.frames:
                     if f.type == wf.PATH_CHALLENGE:
